@@ -228,6 +228,11 @@ def check_table(case, part):
         for p in itertools.permutations(range(n), min(r, n)):
             exprs.append(("list",) + p)
             exprs.append(("intarray",) + p)
+    # selections that pick NO row: the (empty) table keeps its columns, units and metadata
+    exprs.append(("mask",) + (False,) * n)
+    exprs.append(("slice", n, n, 1))
+    exprs.append(("slice", 0, 0, 1))
+    exprs.append(("intarray",))
     exprs.append(("names", "P", "K"))
     exprs.append(("names", "omega", "e", "P"))
     for ex in exprs:
@@ -246,7 +251,10 @@ def check_table(case, part):
                 sub, mm = s[mk], m.rows(np.array(mk, dtype=bool))
             elif ex[0] == "intarray":
                 ia = np.array(ex[1:], dtype=[np.int64, np.int32, np.uint8, np.intp][len(ex) % 4])
-                sub, mm = s[ia], m.rows(list(ex[1:]))
+                sub, mm = s[ia], m.rows(np.array(ex[1:], dtype=int))
+                if len(ex) == 1:
+                    # ... and so does a copy of the empty selection
+                    sub = sub.copy()
             elif ex[0] == "list":
                 sub, mm = s[list(ex[1:])], m.rows(list(ex[1:]))
             else:
